@@ -46,5 +46,16 @@ PROPS["C18"] = {
             "a strict prefix of a pickle never unpickles to a complete value (pickle format: STOP opcode is last); with-statement exit neither raises nor suppresses.",
     "undecided": ["atomicity of the write itself (write_data still truncates in place: the old version is not preserved across a crash, only openability is)"],
 }
+PROPS["C12"] = {
+    "sidecars": ["c12_convert.py", "c18_history_io.py"],
+    "level": "proof",
+    "claim": "Proof level for the change<->data conversion: each convertX / makeX pair of ChangeToData / DataToChange satisfies its contract (constructors "
+             "executed from their real bodies), the four round-trip lemmas follow from the contracts alone, History.write saves the element-wise "
+             "conversion in a two-list shape and History._load_history rebuilds both lists element-wise in order (loop invariants) -- for every history. "
+             "The data serializer round trip and the tree-level reopen clause are exhaustive bounded stand-ins (not counted as proved).",
+    "note": "dispatch by class name (getattr 'convert'+name / 'make'+name) is not executed symbolically: each target is verified separately; "
+            "read_data(write_data(x)) == x assumed from pickle; single-heap lemmas with a fresh rebuilt object.",
+    "undecided": ["serializer round trip for all values (bounded exhaustive only)", "ScopeInfo.__getstate__/__setstate__ (bounded only)"],
+}
 _NB = "check not built yet (framework under construction; see DESIGN.md section 8)"
 NOT_APPLICABLE = {"C%02d" % i: _NB for i in range(1, 21)}
